@@ -85,3 +85,25 @@ pub assume_specification<T, F> [std::option::Option::<T>::is_some_and] (o: std::
     where F: std::ops::FnOnce(T,) -> bool + std::marker::Destruct, T: std::marker::Destruct
     requires o is Some ==> call_requires(f, (o->Some_0,)),
     ensures match o { Some(t) => call_ensures(f, (t,), r), None => !r };
+
+pub assume_specification<T, E, U, F> [std::result::Result::<T, E>::map_or] (r: std::result::Result<T, E>, default: U, f: F) -> (u: U)
+    where
+        F: std::ops::FnOnce(T,) -> U + std::marker::Destruct,
+        U: std::marker::Destruct, T: std::marker::Destruct, E: std::marker::Destruct,
+    requires
+        r is Ok ==> call_requires(f, (r->Ok_0,)),
+    ensures
+        match r { Ok(t) => call_ensures(f, (t,), u), Err(_) => u == default };
+
+// string normalisations: the result is an uninterpreted function of the argument (enough to decide that code which
+// starts normalising a value no longer computes the function of the *original* value its contract names)
+pub uninterp spec fn str_trim_spec(s: Seq<char>) -> Seq<char>;
+pub uninterp spec fn str_trim_start_spec(s: Seq<char>) -> Seq<char>;
+pub uninterp spec fn str_trim_end_spec(s: Seq<char>) -> Seq<char>;
+pub uninterp spec fn str_lower_spec(s: Seq<char>) -> Seq<char>;
+pub uninterp spec fn str_upper_spec(s: Seq<char>) -> Seq<char>;
+pub assume_specification [str::trim] (s: &str) -> (r: &str) ensures r@ == str_trim_spec(s@);
+pub assume_specification [str::trim_start] (s: &str) -> (r: &str) ensures r@ == str_trim_start_spec(s@);
+pub assume_specification [str::trim_end] (s: &str) -> (r: &str) ensures r@ == str_trim_end_spec(s@);
+pub assume_specification [str::to_lowercase] (s: &str) -> (r: String) ensures r@ == str_lower_spec(s@);
+pub assume_specification [str::to_uppercase] (s: &str) -> (r: String) ensures r@ == str_upper_spec(s@);
